@@ -15,8 +15,10 @@ def default_app():
     app = ombott.app
     if not _state.get('route'):
         def h():
-            kw = dict(_state.get('kw') or {})
-            return ombott.static_file(_state['name'], _state['root'], **kw)
+            # the arguments travel with the request (several requests may be in flight on different threads)
+            st = ombott.request.environ.get('verif.static') or _state
+            kw = dict(st.get('kw') or {})
+            return ombott.static_file(st['name'], st['root'], **kw)
         app.route('/__static__', method=['GET', 'HEAD'], callback=h)
         _state['route'] = True
     return app
@@ -26,6 +28,7 @@ def serve(name, root, method='GET', rng=None, ims=None, **kw):
     app = default_app()
     _state.update(name=name, root=root, kw=kw)
     env = base_environ(REQUEST_METHOD=method, PATH_INFO='/__static__')
+    env['verif.static'] = {'name': name, 'root': root, 'kw': kw}
     if rng is not None:
         env['HTTP_RANGE'] = rng
     if ims is not None:
